@@ -48,6 +48,7 @@ func unsupported(format string, a ...any) {
 }
 
 type VC struct {
+	qarr     map[string]string // slice term -> declared constant naming its backing array (quantifier triggers)
 	eng      *Engine
 	sc       *Script
 	te       *TypeEnv
